@@ -36,7 +36,7 @@ PROPS = {
         K('lemma_score_gt_neg1', 'C11.kani.lemma.scores_are_finite_and_above_the_start_score', kind='lemma'),
     ]),
     'C05': dict(units=['core_all', 'events', 'route'], level='proof'),
-    'C09': dict(units=['core_all', 'events', 'route', 'reg'], level='proof', kani=[
+    'C09': dict(units=['core_all', 'events', 'route', 'reg', 'drain'], level='proof', kani=[
         K('decoders_total_and_layouts_le24', 'C09.kani.decoders_never_panic_on_short_frames', kind='bounded', bound='every byte string of length 0..=24'),
     ]),
     'C10': dict(units=['core_all', 'events', 'route', 'hk'], level='proof'),
@@ -45,7 +45,7 @@ PROPS = {
           note='alloc::fmt::format stubbed (debug-only string on the growth path)'),
     ]),
     'C08': dict(units=['core_all', 'hk', 'events'], level='proof'),
-    'C12': dict(units=['core_all'], level='proof'),
+    'C12': dict(units=['core_all', 'events', 'drain'], level='proof'),
     'C13': dict(units=['core_all', 'events'], level='proof', kani=[
         K('effective_stall_window_formula', 'C13.kani.effective_window_is_clamp_4srtt_1000_ceiling_and_pull_window_below_it'),
     ]),
